@@ -14,7 +14,7 @@ ASSUMPTIONS = C02.ASSUMPTIONS
 EXHAUSTIVE = {'quick': False, 'thorough': False}
 NO_SHRINK = True
 TECHNIQUE = 'Coq proof (constraint invariant preserved by every checked operation by induction over histories; refused operations change nothing; sanitise re-establishes it) + correspondence on long histories'
-LEVEL_TEXT = ("Theorems in Properties_C05.v about Model/RegTable.v: the invariant 'initialised, areas and entries ordered and disjoint, areas full, every register wholly inside one area, 16-bit words, every decodable register satisfies its constraint' is preserved by EVERY checked operation - typed set, bit set, bit clear, block write across area borders, sanitise - accepted or refused, with well-typed operands, and therefore by every history of them (induction over the history); it is ESTABLISHED by every successful initialisation of a plain table, after which every register reads its default (C05_invariant_established_by_init); under it every value a get delivers satisfies its register's constraint; frame lemma, distinctness of registers, read-after-write for the flat word memory; refused operations change nothing; bit set/clear change exactly the requested bits.  Registers with the always-failing constraint are outside the invariant by construction (their default validates only during initialisation).")
+LEVEL_TEXT = ("Theorems in Properties_C05.v about Model/RegTable.v: the invariant 'initialised, areas and entries ordered and disjoint, areas full, every register wholly inside one area, 16-bit words, every decodable register satisfies its constraint' is preserved by EVERY checked operation - typed set, bit set, bit clear, block write across area borders, sanitise - accepted or refused, with well-typed operands, and therefore by every history of them (induction over the history); it is ESTABLISHED by every successful initialisation of a plain table, after which every register reads its default (C05_invariant_established_by_init); it is RE-ESTABLISHED by a successful sanitise after ARBITRARY out-of-band corruption of the stored words: registers whose content decodes and satisfies the constraint keep it, all others hold their default, all touched marks are cleared (C05_sanitise_after_corruption); under it every value a get delivers satisfies its register's constraint; frame lemma, distinctness of registers, read-after-write for the flat word memory; refused operations change nothing; bit set/clear change exactly the requested bits.  Registers with the always-failing constraint are outside the invariant by construction (their default validates only during initialisation).")
 LEVEL_NOTE = 'Trusted: Coq kernel; hand model of registers/core.c (correspondence-tested on long histories incl. corruption + sanitise); validator callbacks assumed pure. No axioms.'
 
 def gen(rng, tier):
